@@ -1554,8 +1554,15 @@ def delegation_checks(env, items):
         for f in fields:
             calls = [t for t in body if re.search(r'\bself\.%s\.check_restrictions\(' % re.escape(f), t)]
             propagates = [t for t in calls if t.rstrip().endswith('?;') or not t.rstrip().endswith(';')]
-            out.append(O.Check('field-delegation', '%s: field %s must be checked exactly once and its error propagated (calls: %s)' % (key[1], f, [c.strip() for c in calls]),
-                               len(calls) == 1 and len(propagates) == 1, cls=lambda p: ''))
+            if is_alias:
+                # a simple-type wrapper checks its value against its own facets and (since fix 91eaa47) also against the facets handed down by a
+                # type derived from it: one or two delegations, each propagating, one of them with the facets in scope as `restrictions`
+                ok = (1 <= len(calls) <= 2 and len(propagates) == len(calls) and sum(1 for t in calls if re.search(r'check_restrictions\(restrictions\)', t)) == 1) \
+                    or (len(calls) == 1 and len(propagates) == 1)     # a complex type whose only member happens to be called value
+            else:
+                ok = len(calls) == 1 and len(propagates) == 1
+            out.append(O.Check('field-delegation', '%s: field %s must be checked (members exactly once) and its error propagated (calls: %s)' % (key[1], f, [c.strip() for c in calls]),
+                               ok, cls=lambda p: ''))
         tail = [t.strip() for t in body if t.strip() and not t.strip().startswith('}')]
         ends_ok = bool(tail) and (tail[-1] == 'Ok(())' or re.search(r'\.check_restrictions\(.*\)$', tail[-1]) is not None)
         out.append(O.Check('check-returns-result', '%s: the check ends by returning Ok(()) or the last delegation (%r)' % (key[1], tail[-1:] or None), ends_ok, cls=lambda p: ''))
@@ -1571,17 +1578,176 @@ def c07(tier):
         for sc, info in (F.w_ops(tier, 2),):
             scenario_check(s, sc, info, lambda env, items, info_, m: delegation_checks(env, items), classify=lambda c, p, i: '')
         # ordering: the check precedes serialization and any I/O, its error is returned
+        # (a) value-level execution of the generated checks
+        generated_values_check(s, tier)
         helper_check(s, 'C07', keys_filter=lambda k: k in ('helper/check-first', 'helper/io-after-failed-check', 'helper/restriction-error-returned', 'helper/panic', 'helper/diverge'))
         if tier == 'thorough':
             import e1props
             s.parts['kani_on_generated_code'] = e1props.c07_generated_part(s.rep, tier)
             s.assumptions.append('thorough tier, obligation (a): Kani on the code generated for kani_gen/facets.xsd; alloc::fmt::format stubbed; one symbolic leaf per harness')
     return run_e2('C07', tier, body,
-                  bounds='(b) restricted simple type with each of the 7 supported facets absent or one of 3-4 values (negative, i32 extremes), as child elements or as attributes of xs:restriction, '
+                  bounds='(a) the code generated for smi/corpus/facets2.xsd (string length facets, enumeration, integer bounds on a text carrier, a simple type derived from a restricted simple '
+                         'type, required / optional / repeated members, attribute, nesting depth 2 through a repeated complex member) is compiled and its MIR executed with one symbolic leaf per '
+                         'position (13 positions, 21 strings each incl. absent for optional members; the symbolic leaf is the second element of a repeated member) and with two symbolic leaves '
+                         '(3 pairs quick, all 78 pairs thorough); the Ok/Err outcome of every path is compared by z3 with the facets the schema declares (own and inherited). '
+                         '(b) restricted simple type with each of the 7 supported facets absent or one of 3-4 values (negative, i32 extremes), as child elements or as attributes of xs:restriction, '
                          '0..2 enumeration values, three unsupported facets present; base over string/int/long; holder type using it as required / optional / repeated member; every struct and '
-                         'envelope (2 header parts) must delegate to each field once. (c) coroutine MIR of both helpers over symbolic stub outcomes. Outside: executing the generated checks on values '
-                         '(facet semantics themselves are C06; a simple type derived from a restricted simple type is a known limitation, see DESIGN).',
-                  extra_assumptions=['value-level evaluation of generated check_restrictions code (obligation (a) of the design) is not part of the quick tier'])
+                         'envelope (2 header parts) must delegate to each field once. (c) coroutine MIR of both helpers over symbolic stub outcomes. Outside: values that are not in the lexical '
+                         'space of the base type (non-numeric text under integer facets: only absence of panics is required), whiteSpace collapsing, facets zeep does not support (pattern, '
+                         'totalDigits, fractionDigits), numeric carriers other than text (facet semantics on integer carriers are C06).',
+                  extra_assumptions=['(a): the generated file is compiled with the nightly toolchain for the MIR dump and with the stable toolchain for the native differential run '
+                                     '(every single-position case is also executed natively and must agree with the interpreter)'])
+
+
+
+GEN_VALUES = ['', 'a', 'ab', 'abc', 'abcd', 'éa', 'éé€', 'ééé€', 'on', 'off', 'On', '1', '0', '99', '100', '-1', '+7', '007', 'x1',
+              '9' * 40, '-' + '9' * 40]
+
+
+def generated_values_check(s, tier, fixture=None, root='Outer'):
+    """obligation (a): the check_restrictions code that zeep GENERATES for a fixture schema is compiled, its MIR executed
+    symbolically on an instance whose leaf value(s) are symbolic, and the Ok/Err outcome of every path is compared by the
+    solver with a reference evaluation of the schema's own facet declarations (own and inherited)."""
+    import gencode as GC
+    from sym import Selector
+    from models import SMI
+    fixture = fixture or os.path.join(VERIF, 'smi/corpus/facets2.xsd')
+    try:
+        bodies, work, text = GC.generate_and_dump(fixture, s.ctx)
+    except RuntimeError as e:
+        rdir = save_replay('C07', 'generated_code_does_not_compile', {'finding.txt': str(e)})
+        s.rep.violation('generated/compiles', 'zeep\'s output for %s does not compile: %s' % (os.path.basename(fixture), str(e)[-300:]), rdir)
+        return
+    s.functions.update('generated:' + n for n in bodies if 'check_restrictions' in n or 'check_integer_restrictions' in n)
+    fm = GC.FixtureModel(fixture)
+    structs = GC.generated_structs(text)
+    bld = GC.Builder(fm, structs)
+    positions = fm.positions(root)
+    singles = [(p,) for p in positions]
+    pairs = []
+    if tier == 'thorough':
+        pairs = [(a, b) for i, a in enumerate(positions) for b in positions[i + 1:]]
+    else:
+        # a shallow and a deep position; two positions inside the same repeated member; attribute + derived type
+        want = [(('holder', 'code'), ('more', 'qty')), (('more', 'codes'), ('more', 'maybe')), (('holder', 'tag'), ('holder', 'short'))]
+        byp = {p[0]: p for p in positions}
+        pairs = [(byp[a], byp[b]) for a, b in want if a in byp and b in byp]
+    cases_native = []       # (node, expected description) for the differential run
+    smi_results = []
+
+    def expect(pos, v):
+        """None = don't care (lexically outside the base type), else the violated facet or '' when valid"""
+        path, t, kinds = pos
+        if v is GC.ABSENT:
+            return ''
+        if not fm.lexically_valid(t, v):
+            return None
+        if t not in fm.simple:
+            return ''
+        return fm.violates(t, v) or ''
+
+    for group in singles + pairs:
+        s.scenarios += 1
+        sels = []
+        for gi, pos in enumerate(group):
+            dom = list(GEN_VALUES)
+            sels.append(Selector('leaf%d' % gi, dom))
+        absent_variants = [False]
+        if len(group) == 1 and group[0][2][-1] == 'opt':
+            absent_variants = [False, True]
+        for absent in absent_variants:
+            def entry(m, group=group, sels=sels, absent=absent):
+                for sl in sels:
+                    m.pc.append(sl.domain)
+                at = {pos[0]: (GC.ABSENT if absent else sl.sym()) for pos, sl in zip(group, sels)}
+                node = bld.inst(root, at)
+                cell = [GC.to_smi(node)]
+                return m.call('<%s as CheckRestrictions>::check_restrictions' % root, [Ref(cell, 0), NONE()])
+            try:
+                res = explore(lambda: SMI(bodies, work), entry, max_paths=4000)
+            except RuntimeError as e:
+                rdir = save_replay('C07', 'generated_shape', {'finding.txt': str(e)})
+                s.rep.violation('generated/shape', str(e)[:300], rdir)
+                return
+            s.count(res)
+            if len(res) > 1:
+                s.nontrivial += 1
+            label = '+'.join('.'.join(p[0]) for p in group) + ('/absent' if absent else '')
+            nviol = 0
+            for m, out in res:
+                if out[0] != 'ok':
+                    actual = 'PANIC' if out[0] == 'panic' else 'DIVERGE'
+                else:
+                    r = out[1]
+                    actual = 'OK' if r.variant == 0 else 'ERR'
+                # the solver decides: is there an assignment of the symbolic leaves on this path whose reference verdict differs?
+                bad = []
+                combos = itertools.product(*[range(len(sl.options)) for sl in sels]) if not absent else [tuple(0 for _ in sels)]
+                for idx in combos:
+                    exps = [expect(pos, GC.ABSENT if absent else sl.options[i]) for pos, sl, i in zip(group, sels, idx)]
+                    if any(x is None for x in exps):
+                        want_ = None if actual in ('OK', 'ERR') else 'no panic'
+                    else:
+                        want_ = 'ERR' if any(exps) else 'OK'
+                    if want_ is not None and want_ != actual:
+                        bad.append((idx, exps))
+                s.queries += 1
+                if not bad:
+                    continue
+                t0 = time.time()
+                sol = z3.Solver()
+                sol.add(*m.pc)
+                sol.add(z3.Or(*[z3.And(*[sl.var == i for sl, i in zip(sels, idx)]) for idx, _ in bad]))
+                r = sol.check()
+                s.solver_s += time.time() - t0
+                if r == z3.unknown:
+                    raise Unsupported('solver unknown')
+                if r != z3.sat:
+                    continue
+                mdl = sol.model()
+                vals = [GC.ABSENT if absent else sl.value_in(mdl) for sl in sels]
+                exps = [expect(pos, v) for pos, v in zip(group, vals)]
+                node = bld.inst(root, {pos[0]: v for pos, v in zip(group, vals)})
+                def kind_of(p, x):
+                    if not x:
+                        return 'valid'
+                    declaring = x.split(' of ')[1].split(' ')[0]
+                    if declaring != p[1]:
+                        return 'inherited-facet'
+                    return 'derived-own-facet' if fm.simple[p[1]][1] else 'facet'
+                kinds = sorted({kind_of(p, x) for p, x in zip(group, exps)})
+                key = 'generated/%s/%s/%s' % ('accepts-violation' if actual == 'OK' else 'rejects-valid' if actual == 'ERR' else actual.lower(), '+'.join(kinds),
+                                               '+'.join(('.'.join(p[0])) for p in group))
+                if key in s.rep.seen:
+                    nviol += 1
+                    continue
+                nat = GC.native_results(work, root, structs, [node])[0]
+                s.replays += 1
+                natk = (nat or 'NONE').split(' ')[0]
+                what = 'checking %s with %s: generated check_restrictions gives %s, the schema says %s' % (
+                    root, ', '.join('%s=%r' % ('.'.join(p[0]), v) for p, v in zip(group, vals)), actual,
+                    ('a violation of ' + '; '.join(x for x in exps if x)) if any(exps) else 'every value is valid')
+                if natk != actual:
+                    s.rep.inconc('generated-code counterexample does not reproduce natively (%s natively): %s' % (nat, what))
+                    continue
+                nviol += 1
+                rdir = save_replay('C07', re.sub(r'\W+', '_', key), {'finding.txt': what + '\nnative: %s\n' % nat, 'fixture.xsd': open(fixture).read(),
+                                                                     'value.rs': GC.to_rust(node, structs) + '\n',
+                                                                     'replay.sh': '#!/bin/sh\n# generate code for fixture.xsd with zeep, build value.rs in a main, call check_restrictions(None)\n'})
+                s.rep.violation(key, what, rdir)
+            s.samples.append(dict(scenario='generated-code/' + label, paths=len(res), violations=nviol,
+                                  symbolic='leaf value(s) over %d strings (lengths 0..5 in code points incl. multi-byte, enumeration members, integers at / beyond the facet bounds, signs, leading zeros, i128 overflow)' % len(GEN_VALUES)))
+            if len(group) == 1 and not absent:
+                for i, v in enumerate(sels[0].options):
+                    cases_native.append((bld.inst(root, {group[0][0]: v}), label, v))
+                    hit = [('OK' if o[1].variant == 0 else 'ERR') if o[0] == 'ok' else 'PANIC' for mm, o in res if i in mm.allowed.get('leaf0', {i})]
+                    smi_results.append(hit[0] if len(hit) == 1 else 'AMBIGUOUS %r' % (hit,))
+    # differential validation of the interpreter on the generated code: every single-position case natively
+    nat = GC.native_results(work, root, structs, [c[0] for c in cases_native])
+    mism = [(c[1], c[2], a, b) for c, a, b in zip(cases_native, smi_results, nat) if (b or 'NONE').split(' ')[0] != a]
+    if mism:
+        s.rep.inconc('interpreter and native build disagree on generated code: %r' % (mism[:4],))
+    s.validated += len(cases_native) - len(mism)
 
 
 # ================================================================================================ C17: the CLI
